@@ -96,6 +96,7 @@ _BUILTINS = {
     'max': max, 'abs': abs, 'bool': bool, 'str': str, 'reversed': reversed,
     'sum': sum, 'any': any, 'all': all, 'ord': ord, 'chr': chr, 'bytes': bytes,
     'bytearray': bytearray, 'divmod': divmod, 'round': round,
+    'object': object, 'map': map, 'filter': filter, 'iter': iter, 'next': next, 'setattr': setattr, 'getattr': getattr,
 }
 _SAFE_METHODS = {
     dict: {'get', 'items', 'keys', 'values', 'update', 'copy', 'setdefault'},
@@ -155,7 +156,12 @@ class Folder:
                 if st.value is None:
                     raise Unfoldable(name)
                 return self.eval(st.value, {}, m)
-            val = self.eval(st.value, {}, m)
+            try:
+                val = self.eval(st.value, {}, m)
+            except Unfoldable:
+                if getattr(self, 'fallback', None) is None:
+                    raise
+                val = self.fallback(st.value, m)
             for t in st.targets:
                 got = self._destructure(t, val, name)
                 if got is not _MISSING:
